@@ -7,8 +7,8 @@ import containercodec
 
 MODEL_TARGETS = ["model/De.vo", "model/Reader.vo", "model/ContainerCodec.vo", "model/ContainerReplay.vo"]
 COQ_TARGETS = ["props/C11.vo", "proofs/ConstsTie.vo", "proofs/DeDispatchTie.vo"]
-THEOREMS = [("C11", ["C11_varint", "C11_de", "C11_datum", "C11_container", "C11_compressed_file_chunk_independent"])]
-PROOF_FILES = ["proofs/ReaderProofs.v", "proofs/VarintProofs.v", "props/C11.v", "proofs/ContainerChunkProofs.v", "proofs/ContainerReadProofs.v", "proofs/DecodeLoopProofs.v", "proofs/ContainerCodecProofs.v"]
+THEOREMS = [("C11", ["C11_varint", "C11_de", "C11_datum", "C11_container", "C11_compressed_file_chunk_independent", "C11_container_cap_per_value"])]
+PROOF_FILES = ["proofs/ReaderProofs.v", "proofs/VarintProofs.v", "props/C11.v", "proofs/ContainerChunkProofs.v", "proofs/ContainerReadProofs.v", "proofs/DecodeLoopProofs.v", "proofs/ContainerCodecProofs.v", "proofs/DeClosure.v", "proofs/ContainerLimitsProofs.v"]
 TRUSTED_BASE = [
     "Coq 8.16.1 kernel; no axioms (Print Assumptions: closed)",
     "hand-written model/Reader.v of de/read/mod.rs (SliceRead; ReaderRead over a BufRead whose fill_buf follows a chunk plan; the byte-wise varint gathering path), model/De.v, model/Varint.v of integer-encoding 4.1.0; tied by the correspondence run under every chunk size",
